@@ -165,7 +165,12 @@ Context(s0, words) ==
   IN [valid |-> /\ sAll.err.t = "none" /\ sAll.nerr = 0 /\ sAll.phase = "defaults"
                 \* an unrecognised word where a command is required makes the prefix invalid
                 /\ ~(SubCmds(sAll.d, sAll.cmd) # {} /\ ~sAll.d.cmds[sAll.cmd].subOpt /\ sAll.retargs # <<>>),
-      grey |-> sAll.grey \/ InSeq(sAll.role, "terminator") \/ sAll.hmod
+      \* after the `--` terminator the code completes a plain last word for the next pending positional exactly as the parser
+      \* binds it, provided that positional is not a slice (past a slice positional, and for option-looking or command words after
+      \* the terminator, the code's walk and the parser part ways: no verdict there)
+      grey |-> sAll.grey \/ sAll.hmod
+               \/ (InSeq(sAll.role, "terminator")
+                   /\ ~(~StartsOption(words[n]) /\ sAll.posq # <<>> /\ ~sAll.d.cmds[Head(sAll.posq).c].args[Head(sAll.posq).i].slice))
                \/ (HasOpt(s0, "PassAfterNonOption") /\ (InSeq(sAll.role, "rest") \/ InSeq(sAll.role, "positional")))
                \/ (HasOpt(s0, "IgnoreUnknown") /\ \E i \in 1..Len(sAll.role) : IsOption(typed[i]) /\ sAll.role[i] \in {"rest", "positional"}),
       s |-> sAll, pending |-> pend]
